@@ -9,6 +9,7 @@ import math
 import numpy as np
 
 from harness import curves, monitor, numeric, par
+from harness import enums
 
 LINKAGES = ["single_linkage", "complete_linkage", "centroid_linkage", "average_linkage"]
 MODES = ["left", "linear", "right", "hull", "corner"]
@@ -52,7 +53,7 @@ def _record(item):
     if mode == "corner":
         out, val, _ = monitor.call(pp.filter_clusters_corners, (Pcall, knees, link, t), budget=200000, wall=30)
     else:
-        out, val, _ = monitor.call(pp.filter_clusters, (Pcall, knees, link, t, kr.ClusterRanking(mode)), budget=200000, wall=30)
+        out, val, _ = monitor.call(pp.filter_clusters, (Pcall, knees, link, t, enums.pick(kr.ClusterRanking, mode)), budget=200000, wall=30)
     case = {"id": cid, "mode": mode, "outcome": out, "knees": [int(k) for k in knees], "result": [],
             "lab": [], "score": [], "hullSpan": []}
     meta = {"points": P.tolist(), "knees": case["knees"], "linkage": linkage, "t": t, "mode": mode, "cid": cid}
@@ -84,7 +85,7 @@ def _record(item):
                 vals = [0.5 * ((P[k][0] - P[k - 1][0]) * (P[k][1] - P[k + 1][1])) for k in cl]
             else:
                 vals = _indep_scores(P, [int(k) for k in cl], mode)
-                lib = [float(v) for v in kr.smooth_ranking(P, cl, kr.ClusterRanking(mode))]
+                lib = [float(v) for v in kr.smooth_ranking(P, cl, enums.pick(kr.ClusterRanking, mode))]
                 if not all(numeric.close(a, b) or (math.isnan(a) and math.isnan(b)) for a, b in zip(vals, lib)):
                     meta["drift"] = "smooth_ranking %s differs from the independent score %s" % (lib, vals)
         except Exception:
